@@ -465,7 +465,10 @@ mod stack_model {
             r?;
         }
         // assign-global k v : lands in the nearest enclosing global layer
-        for (k, v) in [("a", 1i64), ("b", 2i64)] {
+        for k in ["a", "b"] {
+            // a value never used before on this runtime: an assignment that is silently dropped (or lands elsewhere) shows
+            // even when the name was already assigned earlier on the path
+            let v = 1000 + stats.0 as i64;
             let gi = {
                 // nearest enclosing global layer: the last Layer::Global on the stack, else the builder's
                 let mut gi = 0;
